@@ -222,7 +222,16 @@ fn proof_agreement<const D: usize, const COUNT: u8>() {
 #[kani::stub(crate::rc4::Rc4::apply_keystream, crate::rc4::verif_h::pad_apply)]
 #[kani::stub(crate::matrix_card::generate_coordinates, stub_coordinates)]
 fn c18_proof_agreement() {
-    proof_agreement::<1, 1>();
     proof_agreement::<2, 2>();
-    kani::cover!(true, "one digit one challenge; two digits two challenges");
+    kani::cover!(true, "two digits, two challenges");
+}
+
+#[kani::proof]
+#[kani::unwind(42)]
+#[kani::stub(crate::rc4::Rc4::new, crate::rc4::verif_h::stub_new_pad)]
+#[kani::stub(crate::rc4::Rc4::apply_keystream, crate::rc4::verif_h::pad_apply)]
+#[kani::stub(crate::matrix_card::generate_coordinates, stub_coordinates)]
+fn c18_proof_agreement_1x1() {
+    proof_agreement::<1, 1>();
+    kani::cover!(true, "one digit, one challenge");
 }
